@@ -647,7 +647,8 @@ HistoryOK == viol = "ok"
 LastStim == CurAtt >= 1 /\ nstim[CurAtt].close + nstim[CurAtt].fail > 0
 QuietOK == PreQuiet => (Pr!QuietClause(QRecord, LastStim) = "ok" /\ ~Spurious)
 \* the same object connects again
-ReconnectOK == PostQuiet => Pr!EpilogueClause(IF Pr!Has(words[NAtt], "connected") THEN 1 ELSE 0) = "ok"
+ReconnectOK == PostQuiet => Pr!EpilogueClause(IF Pr!Has(words[NAtt], "connected") THEN 1 ELSE 0,
+                                              IF Pr!Has(words[NAtt], "fully") THEN 1 ELSE 0) = "ok"
 NoThreadDies == g.dead = {}
 \* single clauses of HistoryOK / search targets (used to obtain the schedule that exposes ONE code site; the verdict
 \* on the real code always comes from the monitor)
@@ -655,6 +656,10 @@ CloseCallsOK == viol # "CloseOneDisconnected"
 \* enumeration of the clauses the as-is design can violate (reports/C02.md, known findings): Seen is a set of strings
 ViolKey == viol \o "/" \o vwhen
 NoEarlyConnected == viol # "ConnectedBeforeTables"
+\* fully_connected is never delivered after the attempt's disconnected: Param._disconnected (first callback of the
+\* fan-out) empties table and values before any application callback sees `disconnected`
+NoFullyAfterDisconnected ==
+    \A a \in 0..NAtt : \A i, j \in DOMAIN words[a] : (i < j /\ words[a][i] = "disconnected") => words[a][j] # "fully"
 NoLeakedSendLock == ~(PreQuiet /\ g.lock # "free" /\ viol = "ok" /\ g.dead = {})
 \* search target (not a clause of C02; used to obtain a schedule that is then run against the real code and judged by
 \* the monitor): a thread joins the ping thread while it holds _send_lock and the ping thread waits for that lock
